@@ -107,21 +107,24 @@ inductive LinkRes where
   | indexError              -- `list(...)[0]` on an empty list (unreachable under `len == 1`)
   deriving DecidableEq, Repr
 
-/-- templatewriter.writer.TemplateWriter.writeSummaryPages, tail (at /repo 5201211):
+/-- templatewriter.writer.TemplateWriter.writeSummaryPages, tail (at /repo a3977d7):
 ```
 if len(system.root_names) == 1:
     root_module_path = build_directory / (list(system.root_names)[0] + '.html')
+    if not any(o.isVisible for o in system.rootobjects): return          # hidden root: no file named after it
     if root_module_path.name == 'index.html': return
     if root_module_path.name in [pclass.filename for pclass in chain(summaryPages(system), searchpages)]: return
     try: root_module_path.unlink()  except FileNotFoundError: pass
     root_module_path.symlink_to('index.html')
 ```
-`pageFiles` = the file names of the summary and search pages of this run (a list: membership only). -/
-def rootSymlink (enum : List Name) (pageFiles : List Name) : LinkRes :=
+`pageFiles` = the file names of the summary and search pages of this run (a list: membership only);
+`anyRootVisible` = `any(o.isVisible for o in system.rootobjects)`. -/
+def rootSymlink (enum : List Name) (anyRootVisible : Bool) (pageFiles : List Name) : LinkRes :=
   if enum.length = 1 then
     match enum[0]? with
     | some r =>
-      if r ++ dotHtml = indexHtml then .noLink
+      if !anyRootVisible then .noLink
+      else if r ++ dotHtml = indexHtml then .noLink
       else if pageFiles.contains (r ++ dotHtml) then .noLink
       else .link (r ++ dotHtml)
     | none => .indexError
@@ -570,8 +573,7 @@ def addTemplate (d : Lookup) (t : Tpl) : Option Lookup :=
   | none => some ((t.lower, ⟨t.name, t.html, t.content⟩) :: d)
   | some e => if e.html = t.html then some ((t.lower, ⟨e.outName, e.html, t.content⟩) :: d) else none
 
-/-- TemplateLookup.add_templatedir: `for template in Template.fromdir(path): self.add_template(template)`;
-`listing` = the directory's files in the order `path.iterdir()` lists them (NOT sorted by the code). -/
+/-- add templates in the order given -/
 def addTemplateDir : Lookup → List Tpl → Option Lookup
   | d, [] => some d
   | d, t :: rest =>
@@ -579,9 +581,15 @@ def addTemplateDir : Lookup → List Tpl → Option Lookup
     | some d' => addTemplateDir d' rest
     | none => none
 
-/-- the proposed repair (fixes/C18-template-dir-listing-sorted.diff): walk the directory in name order -/
+/-- TemplateLookup.add_templatedir (at /repo ea400d3): `for template in Template.fromdir(path): self.add_template(template)`
+with Template.fromdir walking `sorted(path.iterdir(), key=lambda e: e.name)`;
+`listing` = the directory's files in the order the file system lists them. -/
 def addTemplateDirSorted (d : Lookup) (listing : List Tpl) : Option Lookup :=
   addTemplateDir d (sortedWith lexLe (·.name) listing)
+
+/-- the same BEFORE ea400d3: the directory was walked in the order `path.iterdir()` listed it.
+Kept for the record only (`addTemplateDir_listing_counterexample_old`). -/
+def addTemplateDirOld (d : Lookup) (listing : List Tpl) : Option Lookup := addTemplateDir d listing
 
 /-- the executable property predicate for part 1: a site function gives the same answer on two
 enumerations -/
